@@ -14,13 +14,13 @@ import (
 
 var profCrash = &Profile{
 	Name: "C03-crash", MinOps: 2, MaxOps: 25, NColls: 3, Hostile: true, EndOnly: 100,
-	Kinds: []wk{{OpSet, 40}, {OpSetR, 3}, {OpDel, 12}, {OpFlush, 22}, {OpEvict, 5}, {OpReopen, 6}, {OpSetColl, 4}, {OpRmColl, 4}, {OpSet, 4}},
+	Kinds: []wk{{OpSet, 40}, {OpSetR, 3}, {OpDel, 12}, {OpFlush, 22}, {OpEvict, 5}, {OpReopen, 6}, {OpSetColl, 4}, {OpRmColl, 4}, {OpWrite, 4}, {OpSet, 4}},
 }
 
 // profCont generates the continuation run on a recovered store.
 var profCont = &Profile{
 	Name: "C03-cont", MinOps: 1, MaxOps: 6, NColls: 3, Hostile: true,
-	Kinds: []wk{{OpSet, 50}, {OpDel, 20}, {OpFlush, 12}, {OpSetColl, 5}, {OpRmColl, 5}, {OpEvict, 4}, {OpSet, 4}},
+	Kinds: []wk{{OpSet, 50}, {OpDel, 20}, {OpFlush, 12}, {OpSetColl, 5}, {OpRmColl, 5}, {OpEvict, 4}, {OpWrite, 4}, {OpSet, 4}},
 }
 
 // hostileValue derives, at run time, a value that resembles root-record
